@@ -240,6 +240,34 @@ def D25():
     return n != len(m.attackers), f'{len(m.attackers)} attackers in the model, {n} serialised'
 
 
+def D20():
+    from maltoolbox.language.compiler import MalCompiler
+    import io, contextlib
+    got = []
+    for fn in ('bad1.mal', 'bad2.mal'):
+        try:
+            with contextlib.redirect_stderr(io.StringIO()):
+                spec = MalCompiler().compile(os.path.join(HERE, fn))
+            got.append(f'{fn}: returned a spec with {len(spec["assets"])} asset(s)')
+        except Exception as e:
+            got.append(f'{fn}: {type(e).__name__}')
+    return any('returned' in g for g in got), '; '.join(got)
+
+
+def D22():
+    from maltoolbox.language.compiler import MalCompiler
+    spec = MalCompiler().compile(os.path.join(HERE, 'lang_ttc.mal'))
+    steps = {s['name']: s['ttc'] for s in spec['assets'][0]['attackSteps']}
+
+    def show(t):
+        if t['type'] in ('multiplication', 'division'):
+            return '(' + show(t['lhs']) + ('*' if t['type'] == 'multiplication' else '/') + show(t['rhs']) + ')'
+        return 'Exp' if t['type'] == 'function' else str(int(t['value']))
+    got = {k: show(v) for k, v in steps.items()}
+    want = {'s1': '((Exp*2)*3)', 's2': '((Exp/2)*3)'}
+    return got != want, f'TTC trees {got} (expected {want})'
+
+
 if __name__ == '__main__':
     ids = sys.argv[1:] or sorted((k for k in globals() if k[0] == 'D' and k[1:].isdigit()),
                                  key=lambda s: int(s[1:]))
